@@ -1128,7 +1128,8 @@ fn probe_pipe(args: &Args) {
     }
     // Signals::new default pipe, a long burst nobody reads
     {
-        let burst = *bursts.iter().max().unwrap_or(&3) * 200;
+        // (capped: the point is a pipe nobody reads, long full; millions of raises would only outlast the watchdog)
+        let burst = std::cmp::min(*bursts.iter().max().unwrap_or(&3) * 200, 300_000);
         let st = fork_run(30000, || {
             let mut s = signal_hook::iterator::Signals::new(&[libc::SIGUSR1]).unwrap();
             unsafe { libc::alarm(10) };
